@@ -87,7 +87,7 @@ SPECS = ["", "~", "P", "~P", "C", "~C"]
 def tasks(tier, seed):
     t = [{"sub": "history", "shard": i} for i in range(6)]
     t += [{"sub": "default", "shard": i} for i in range(2)]
-    t += [{"sub": "isolation", "shard": 0}, {"sub": "xcache", "shard": 0}]
+    t += [{"sub": "isolation", "shard": 0}, {"sub": "xcache", "shard": 0}, {"sub": "redefine", "shard": 0}]
     return t
 
 
@@ -570,10 +570,61 @@ def run_xcache(task, tier, seed, col):
         col.run_case(lambda c: case_xcache(c, col), {"source": src, "units": ["meter", "gram", "hour", "watt", "degree", "byte"], "hashseeds": [5, 2 + seed % 7, 13]})
 
 
+# ------------------------------------------------------------------------------------- definitions replaced through define() / load_definitions()
+
+R_LINES = ["xm = [xlen]", "xs = [xtime]", "xk = [xtemp]", "kila- = 1000 = K-", "foo = 3 * xm = fo", "bar = 5 * foo / xs", "tX = 2 * xk; offset: 100 = tx", "baz = 7 * xs"]
+R_NEW = {"foo": ["foo = 4 * xm = fo", "foo = 1/2 * xm = fo"], "bar": ["bar = 9 * foo / xs", "bar = 2 * xm / baz"], "tX": ["tX = 5 * xk; offset: 20 = tx", "tX = 1/3 * xk; offset: -7 = tx"],
+         "baz": ["baz = 11 * xs"], "kila-": ["kila- = 1024 = K-"]}
+R_QUERIES = [("convert", 1, "foo", "xm"), ("convert", 1, "bar", "xm / xs"), ("root", "foo"), ("root", "bar"), ("base", "bar"), ("to", 2, "kilafoo", "xm"), ("to", 3, "fo", "xm"), ("to", 1, "delta_tX", "xk"),
+             ("to", 10, "tX", "xk"), ("to", 50, "xk", "tx"), ("dim", "bar"), ("compat", "xm", None), ("convert", 6, "bar", "foo / baz"), ("parse_expr", "2 foo + 3 xm"), ("to_base", 4, "Kfo"), ("name", "fo")]
+
+
+def case_redefine(case, col=None):
+    """A registry that tolerates redefinitions (on_redefinition 'warn' - the default - or 'ignore') answers, after a definition has been replaced
+    through define() or load_definitions(), like a registry built from the text with the replacement in place - whatever was asked before."""
+    import pint
+
+    logging.disable(logging.CRITICAL)
+    try:
+        subject = pint.UnitRegistry(list(R_LINES), non_int_type=Fraction, on_redefinition=case["policy"])
+        current = {l.split(" = ")[0]: l for l in R_LINES}
+        asked_before = redefs = 0
+        for step in case["steps"]:
+            if step[0] == "ask":
+                qs = [R_QUERIES[i % len(R_QUERIES)] for i in step[1]]
+            else:
+                name, k = step[1], step[2]
+                line = R_NEW[name][k % len(R_NEW[name])]
+                if name == "kila-" and asked_before:
+                    continue  # prefixed units registered before their prefix is replaced keep the old prefix: not decided by the statement, not generated
+                (subject.define(line) if step[0] == "define" else subject.load_definitions([line]))
+                current[name] = line
+                redefs += 1
+                qs = R_QUERIES
+            twin = pint.UnitRegistry([current[l.split(" = ")[0]] for l in R_LINES], non_int_type=Fraction, on_redefinition=case["policy"])
+            for q in qs:
+                a, b = ask(subject, q), ask(twin, q)
+                if a != b:
+                    stale = "cached_answer" if asked_before else "first_answer"
+                    raise Violation(f"answer_after_redefinition_differs_from_fresh_registry:{stale}:{q[0]}", f"{case}: after {step}, {q} -> {a}; a registry built with the replaced definitions -> {b}")
+            asked_before += 1
+        if col is not None:
+            col.case(("rd", str(case)), redefs > 0 and any(s[0] == "ask" for s in case["steps"][:-1]), sample=case, cls=case["policy"])
+    finally:
+        logging.disable(logging.NOTSET)
+
+
+def run_redefine(task, tier, seed, col):
+    step = st.one_of(st.tuples(st.just("ask"), st.lists(st.integers(0, len(R_QUERIES) - 1), min_size=1, max_size=5)),
+                     st.tuples(st.sampled_from(["define", "define", "load"]), st.sampled_from(sorted(R_NEW)), st.integers(0, 1)))
+    strat = st.fixed_dictionaries({"policy": st.sampled_from(["warn", "ignore"]), "steps": st.lists(step, min_size=2, max_size=7).map(lambda l: [list(x) for x in l])})
+    hyp_search(col, strat, lambda c: case_redefine(c, col), max_examples=120 if tier == "quick" else 2500, seed=seed * 229 + 7, shrink_budget_s=60)
+
+
 def run_task(task, tier, seed, col):
     if task["sub"] == "xcache":
         return run_xcache(task, tier, seed, col)
-    {"history": run_history_task, "default": run_default, "isolation": run_isolation}[task["sub"]](task, tier, seed, col)
+    {"history": run_history_task, "default": run_default, "isolation": run_isolation, "redefine": run_redefine}[task["sub"]](task, tier, seed, col)
 
 
 def replay(sub, case):
@@ -581,4 +632,4 @@ def replay(sub, case):
         from .c10 import case_xcache
 
         return case_xcache(case)
-    return {"history": case_history, "default": case_default, "isolation": case_isolation}[sub](case)
+    return {"history": case_history, "default": case_default, "isolation": case_isolation, "redefine": case_redefine}[sub](case)
